@@ -1493,3 +1493,49 @@ theorem C19.axis_rotation_rigid {K : Type} [CommRing K] (a : V3 K) (c s : K)
 example : axisRotation (⟨0, 0, 1⟩ : V3 ℚ) 0 1 ⟨1, 2, 0⟩ ⟨-1, 0, 0⟩ = ⟨-3, 2, 0⟩ := by
   simp [axisRotation, axisRot, M3.mulVec, V3.add, V3.sub, V3.smul, V3.dot]
   norm_num
+
+/-- Slicing a `FanBeamGeometry` by angle index keeps the geometry: `geom[i:j]` (the constructor
+re-invoked with the STORED normalised `src_to_det_init`, the detector-axis argument as given,
+translation, radii, `check_bounds`) has exactly the state of `geom` — the same normalised
+`src_to_det_init`, the same (given or re-DERIVED) detector axis, hence the same `src_position`,
+`det_refpoint`, `det_point_position`, `det_to_src` for every angle — for every constructible
+geometry whose `src_to_det_init` is not shorter than `1e-10`.  Uses
+`C19.transform_system_renormalised` (the snap decision and the rotation depend on the direction
+only; with the code before b998548 this failed for short vectors, former finding F19t).
+CONDITIONAL on `sqrt` being a square root at `‖src_to_det_init‖²` with `sqrt 1 = 1`. -/
+theorem C19.getitem_fan_idempotent {K : Type} [Field K] [LinearOrder K] [IsStrictOrderedRing K]
+    (sqrt : K → K) (tol2 atol : K) (htol : 0 < tol2) (htol1 : tol2 ≤ 1) (h1 : sqrt 1 = 1)
+    (s2d : V2 K) (axisArg : Option (V2 K)) (t : V2 K) (rs rd : K) (cb : Bool) (g : FanState K)
+    (hs : sqrt s2d.normSq * sqrt s2d.normSq = s2d.normSq) (ht : tol2 ≤ s2d.normSq)
+    (hg : fanCtor sqrt tol2 atol s2d axisArg t rs rd cb = some g) :
+    fanGetitem sqrt tol2 atol g = some g := by
+  have hp0 : s2d.normSq ≠ 0 := ne_of_gt (lt_of_lt_of_le htol ht)
+  have hu := (C19.normalize_unit sqrt).1 s2d hp0 hs
+  have hnn : V2.normalize sqrt (V2.normalize sqrt s2d) = V2.normalize sqrt s2d := by
+    generalize V2.normalize sqrt s2d = q at hu
+    obtain ⟨x, y⟩ := q
+    simp only [V2.normalize, hu, h1, V2.smul]
+    ext <;> simp
+  have hre := (C19.transform_system_renormalised sqrt tol2 atol (-1) 0 htol htol1 h1).1 ⟨0, 1⟩ s2d hs ht
+  unfold fanCtor at hg
+  cases hM : tsMatrix2 sqrt tol2 atol ⟨0, 1⟩ s2d with
+  | none => rw [hM] at hg; exact absurd hg (by simp)
+  | some M =>
+    rw [hM] at hg
+    simp only [Option.some.injEq] at hg
+    subst hg
+    simp only [fanGetitem, fanCtor, hre, hM, hnn]
+
+/-- instance: `src_to_det_init = (3, 4)`, derived detector axis `(4/5, -3/5)`; the slice has the
+same state. -/
+example : ∃ g : FanState ℚ,
+    fanCtor (fun s : ℚ => if s = 25 then 5 else 1) (1 / 10 ^ 20) (1 / 10 ^ 8) ⟨3, 4⟩ none ⟨1, 2⟩ 5 7 true
+      = some g ∧ g.axis = ⟨4 / 5, -(3 / 5)⟩ ∧
+    fanGetitem (fun s : ℚ => if s = 25 then 5 else 1) (1 / 10 ^ 20) (1 / 10 ^ 8) g = some g := by
+  have h : fanCtor (fun s : ℚ => if s = 25 then 5 else 1) (1 / 10 ^ 20) (1 / 10 ^ 8) ⟨3, 4⟩ none
+      ⟨1, 2⟩ 5 7 true = some ⟨⟨3 / 5, 4 / 5⟩, none, ⟨4 / 5, -(3 / 5)⟩, ⟨1, 2⟩, 5, 7, true⟩ := by
+    simp [fanCtor, tsMatrix2, tsSnaps2, closeTo, absK, rotFromToCode2, rotFromTo2, perp2,
+      V2.normalize, V2.normSq, V2.dot, V2.smul, M2.mulVec]
+    norm_num
+  exact ⟨_, h, rfl, C19.getitem_fan_idempotent _ _ _ (by norm_num) (by norm_num) (by norm_num)
+    ⟨3, 4⟩ none ⟨1, 2⟩ 5 7 true _ (by norm_num [V2.normSq, V2.dot]) (by norm_num [V2.normSq, V2.dot]) h⟩
